@@ -285,3 +285,8 @@ def uf(name, *args):
 
 
 ufb = uf
+
+
+def hash_of_dump(a):
+    import hashlib
+    return hashlib.md5(ast.dump(a).encode("utf-8")).hexdigest()
